@@ -21,7 +21,8 @@ The document is the *resolved* one (no extensions; built-ins included as data). 
 The small part of `resolve_schema_extensions` that implements the rule "no two definitions of the same
 kind with the same name" (`ExtensionList::set_original` → `DuplicateOriginal`) is `dupOriginal?`.
 
-Core Lean only; structurally recursive (explicit fuel for the directive-recursion search).
+Core Lean only; structurally recursive (explicit fuel for the directive-recursion search and for the walk through nested
+input objects inside it).
 -/
 import NitroVerif.Model.CheckTsCommon
 namespace NitroVerif.CheckTs
@@ -56,20 +57,65 @@ def checkValidImpl (S : Schema) (namePos : Pos) (fields : List FieldDef) (implem
 
 /-! ### check_directive_recursion.rs -/
 
-/-- `directives_in_type` -/
-def directivesInType (t : TypeDef) : List Directive :=
+/-- `directives_in_type` as it was before fix 2e4a65e, which is still what the repaired function returns for every
+    kind but INPUT OBJECT — and, for an input object, the first part of the result (the directives on the type and on
+    its fields, not those inside the types of its fields) -/
+def directivesInTypeOld (t : TypeDef) : List Directive :=
   match t.kind with
   | .scalar | .union => t.dirs
   | .object | .interface => t.dirs ++ t.fields.flatMap (·.dirs)
   | .enum => t.dirs ++ t.values.flatMap (·.dirs)
   | .input => t.dirs ++ t.inputs.flatMap (·.dirs)
 
+/-- the `for field in def.fields.iter()` loop of `directives_in_type` (input-object arm): the type of each field is looked
+    up in `definition_map.types` (fields of an undefined type are skipped) and walked by `go` with the `seen_types` set
+    the previous fields left behind; result = (directives appended to `result`, `seen_types` afterwards) -/
+def ditFields (T : TsDoc) (go : TypeDef → List Name → List Directive × List Name) :
+    List InputValueDef → List Name → List Directive × List Name
+  | [], seen => ([], seen)
+  | f :: fs, seen =>
+    match lastTypeDef? T f.ty.unwrapped with
+    | none => ditFields T go fs seen
+    | some ft =>
+      let r := go ft seen
+      let r' := ditFields T go fs r.2
+      (r.1 ++ r'.1, r'.2)
+
+/-- `directives_in_type(definition_map, def, seen_types)` (since fix 2e4a65e) with the mutable `seen_types` threaded
+    through: (directives returned, `seen_types` afterwards). An input object whose name is already in `seen_types`
+    contributes nothing; otherwise its name is inserted, the directives on the type and on its fields come first, then —
+    field by field, depth first — the directives inside the types of its fields. The fuel bounds the NESTING depth:
+    every nested call that does not return at once has inserted a new input-object name of the document, so `|T| + 1`
+    is never exhausted (`Lemmas/CheckTsWalk.lean`: `ditWalk_fuel_indep`); the out-of-fuel branch is silent. -/
+def ditWalk (T : TsDoc) : Nat → TypeDef → List Name → List Directive × List Name
+  | 0, t, seen => if t.kind == .input then ([], seen) else (directivesInTypeOld t, seen)
+  | fuel + 1, t, seen =>
+    if t.kind == .input then
+      if seen.contains t.name then ([], seen)
+      else
+        let r := ditFields T (ditWalk T fuel) t.inputs seen
+        (t.dirs ++ t.inputs.flatMap (·.dirs) ++ r.1, r.2)
+    else (directivesInTypeOld t, seen)
+
+/-- `directives_in_type(definition_map, def, &mut HashSet::new())`: the call made for the type of ONE argument of the
+    directive definition being expanded (`seen_types` is created afresh for each argument) -/
+def directivesInType (T : TsDoc) (t : TypeDef) : List Directive :=
+  (ditWalk T (T.length + 1) t []).1
+
 /-- the directive definitions pushed to `next_directives` when `d` is expanded -/
 def dirSuccessors (T : TsDoc) (d : DirectiveDef) : List DirectiveDef :=
   (d.args.flatMap fun a =>
       a.dirs ++ (match lastTypeDef? T a.ty.unwrapped with
                  | none => []
-                 | some t => directivesInType t)).filterMap fun dir => lastDirectiveDef? T dir.name
+                 | some t => directivesInType T t)).filterMap fun dir => lastDirectiveDef? T dir.name
+
+/-- `dirSuccessors` before fix 2e4a65e (only the argument's own type was looked into); kept for the pre-repair
+    witnesses -/
+def dirSuccessorsOld (T : TsDoc) (d : DirectiveDef) : List DirectiveDef :=
+  (d.args.flatMap fun a =>
+      a.dirs ++ (match lastTypeDef? T a.ty.unwrapped with
+                 | none => []
+                 | some t => directivesInTypeOld t)).filterMap fun dir => lastDirectiveDef? T dir.name
 
 /-- one `for d in current_directives` pass: (seen afterwards, diagnostics, next_directives) -/
 def recRound (T : TsDoc) (start : Name) : List Name → List DirectiveDef → List Name × List Err × List DirectiveDef
